@@ -110,6 +110,64 @@ def check_noop(ctx, rep, pid):
         rep.ok("%s.noop" % pid, "no-noop-update", "no inspected function (%d) performs an atomic or/and/add that cannot change its word (detector verified on witness/selfcheck.c)" % n, [])
 
 
+def errno_misuse(f):
+    """loads of errno that steer a branch although the dominating test on a call's result says the call *succeeded*
+    (errno is only meaningful after a failure; on success it holds whatever an earlier call left there)"""
+    from . import pat
+    out = []
+    for i in f.all_insts():
+        if i.op != "load":
+            continue
+        e = ir.expr(f, ["i", i.id], 3)
+        if not (e[0] == "load" and "__errno_location" in e[1]):
+            continue
+        # used by a comparison / switch?
+        used = any((u.op in ("icmp", "switch")) and any(a == ["i", i.id] for a in u.args) for u in f.all_insts())
+        if not used:
+            continue
+        lv = pat.dom_leaf_atoms(f, i)
+        res = [a for a in lv if len(a) == 3 and a[1][0] == "call" and a[2][0] == "c" and not a[1][1].startswith(("pthread_", "sig", "llvm."))]      # pthread_* report through their return value, not errno
+        if not res:
+            continue
+        a = res[-1]          # innermost test of a call result
+        success = (a[0] == "eq" and a[2][1] == 0) or (a[0] == "sge" and a[2][1] == 0) or (a[0] == "ne" and a[2][1] == -1) or (a[0] == "sgt" and a[2][1] == -1)
+        if success:
+            out.append((i, a))
+    return out
+
+
+def check_errno(ctx, rep, pid):
+    import os
+    w = ctx.mod("w_selfcheck", "perfn")
+    pos, neg = w.fn("w_selfcheck_errno_on_success"), w.fn("w_selfcheck_errno_on_failure")
+    if pos is None or neg is None or len(errno_misuse(pos)) != 1 or errno_misuse(neg):
+        raise Broken("errno-discipline detector no longer matches its examples in witness/selfcheck.c")
+    bad = []
+    n = 0
+    libs = set()
+    for path, name in sorted(rep.fn_seen):
+        parts = os.path.basename(path).split(".")
+        if len(parts) >= 3 and not parts[0].startswith("w_"):
+            libs.add(".".join(parts[:-2]))
+    for lib in sorted(libs):
+        # per-function view of the whole library: the call whose result is tested is still a call there (in the flattened view
+        # the futex wrappers are inlined and their result is a phi)
+        for f in ctx.mod(lib, "perfn").defined():
+            n += 1
+            for i, a in errno_misuse(f):
+                bad.append((lib, f, i, a))
+    seen = set()
+    for lib, f, i, a in bad:
+        k = (i.origin_fn, i.line)
+        if k in seen:
+            continue
+        seen.add(k)
+        rep.bad("%s.errno" % pid, "%s.%s@%d" % (lib, i.origin_fn, i.line), "errno decides a branch on the path where %s, i.e. the call succeeded: it holds a stale value there - the EINTR / EAGAIN handling of "
+                "the wait is applied to the wrong outcome (a successful wake-up is treated as an error, a failure as success)" % ir.atom_str(a), [i.where()])
+    if not bad:
+        rep.ok("%s.errno" % pid, "errno-after-failure", "every errno test in the %d inspected functions is on the failure side of the call it belongs to (detector verified on witness/selfcheck.c)" % n, [])
+
+
 def check(ctx, rep, pid):
     # positive example first
     try:
